@@ -520,6 +520,45 @@ def run(ck, prog, ctx):
             ck.ob("ROLE", "obo/link-order", ok, "connections (child, parent) are linked as add_parent(%s, %s)" % ("parent" if comp(pa) == {("1",)} else "?", "child" if comp(ca) == {("0",)} else "?"), where=ro.where(t.line))
 
     # ---- constructors: a field named like a parameter is initialised from that parameter, not from a sibling of the same type
+    # ---- the two text loaders differ in the gene file parser only: same stages, same finishing call (with the default categories / modifiers)
+    ck.rule("SIBLING", "the loaders behind from_standard and from_standard_transitive run the same stages; both finish with build_with_defaults")
+    stages = {}
+    for fn_ in ("from_standard", "from_standard_transitive"):
+        ob_ = prog.body("ontology::Ontology::" + fn_)
+        if ob_ is None:
+            continue
+        ld = [prog.bodies[t.callee.res] for _, t in ob_.calls() if t.callee.res in prog.bodies and (t.callee.res or "").startswith("parser::")]
+        if len(ld) != 1:
+            ck.undecided("SIBLING", "loader/%s" % fn_, "the loader behind Ontology::%s is not a single crate function of the parser module" % fn_, where=ob_.where())
+            continue
+        lb_ = ld[0]
+        seq = []
+        for bi, t in sorted(lb_.calls(), key=lambda q: len([1 for q2 in lb_.calls() if lb_.dominates(q2[0], q[0])])):
+            r = t.callee.res or ""
+            if r in prog.bodies and not t.callee.trait:
+                nm = re.sub(r"::<[^>]*>", "", r).rsplit("::", 1)[-1]
+                seq.append("<gene parser>" if r.startswith(G) else nm)
+        stages[fn_] = (lb_, tuple(seq))
+        fin = [x for x in seq if x.startswith("build")]
+        if not fin:
+            # the stages may sit in a shared private helper (`load(.., gene_parser)`)
+            for rid in sorted(prog.reachable_bodies([lb_.id])):
+                rb_ = prog.bodies.get(rid)
+                if rb_ is not None and rb_.id.startswith("parser::") and rb_.id != lb_.id and not rb_.reachable:
+                    fin += [re.sub(r"::<[^>]*>", "", t.callee.res).rsplit("::", 1)[-1] for _, t in rb_.calls() if t.callee.res in prog.bodies and re.sub(r"::<[^>]*>", "", t.callee.res).rsplit("::", 1)[-1].startswith("build")]
+            fin = sorted(set(fin))
+            if not fin:
+                ck.undecided("ROLE", "loader/%s/finish" % fn_, "no finishing call of the builder found in %s or the private parser functions it reaches" % lb_.short, where=lb_.where())
+                continue
+        ck.ob("ROLE", "loader/%s/finish" % fn_, fin == ["build_with_defaults"], "%s finishes the ontology with %s (expected build_with_defaults: categories and modifier roots are part of a loaded ontology)" % (lb_.short, fin or "no build call"), where=lb_.where())
+    if len(stages) == 2:
+        (l1, s1), (l2, s2) = stages["from_standard"], stages["from_standard_transitive"]
+        ck.ob("SIBLING", "loader/stages", s1 == s2, "the two loaders run %s" % ("the same stages: " + " -> ".join(s1) if s1 == s2 else "DIFFERENT stages: %s vs %s" % (" -> ".join(s1), " -> ".join(s2))), where=l2.where())
+
     ck.rule("CTOR", "in a struct literal, the field `f` of a function with a parameter `f` derives from that parameter (DESIGN 3.9)")
     from engines import check_ctors
     check_ctors(ck, "CTOR", prog, r"^src/parser\.rs$", floor=1)
+    # failures of fallible crate functions are propagated or asserted, never turned into success
+    ck.rule("ERR", "every call of a crate function returning Result<_, HpoError> propagates the error (`?` / return / match), panics on it (unwrap / expect), or is a listed documented exception; none replaces it by a default")
+    from engines import check_error_discipline
+    check_error_discipline(ck, "ERR", prog, r"^src/parser\.rs$|^src/parser/hp_obo\.rs$", allowed=[(r"^Ontology::hpo$", r"try_new$", "documented: Ontology::hpo answers None for an id that is not in the ontology")], floor=5)
